@@ -54,11 +54,11 @@ Definition wfy_body (c : cmd) (i : invy) : bool :=
   | YTrail its vs =>
       wfx_items c PSValuesDone 1 its && not_pos (items_pst c PSValuesDone 1 its)
       && (if is_done (items_pst c PSValuesDone 1 its) then nosub c ESC else true)
-      && negb (is_set s_dont_delimit_trailing c)
+      && negb (is_set s_dont_delimit_trailing c) && negb (Escape.low_index_mults_any c)
       && wfx_trail c (items_pos c 1 its) vs
   | YTva its vs =>
       wfx_items c PSValuesDone 1 its && is_done (items_pst c PSValuesDone 1 its)
-      && negb (is_set s_dont_delimit_trailing c)
+      && negb (is_set s_dont_delimit_trailing c) && negb (Escape.low_index_mults_any c)
       && wfx_tva c (items_pos c 1 its) vs
   | YHyp its vs =>
       wfx_items c PSValuesDone 1 its && is_done (items_pst c PSValuesDone 1 its)
@@ -115,6 +115,6 @@ Example user_examples :
   user_conventionalx XEx.c0 = true /\ user_conventional XEx.c0 = false /\
   wfy_body (build_self (with_bin XEx.c0 XEx.bin)) (of_inv XEx.xinv) = true /\
   user_conventionalx YEx.t0 = true /\ wfy_body (build_self (with_bin YEx.t0 YEx.bin)) YEx.tinv = true /\
-  (* a multiple positional below a last(true) one is in [convx] but outside the builder-level sufficient condition *)
-  user_conventionalx YEx.c0 = false /\ convx YEx.c = true.
+  (* a multiple positional below a last(true) one *)
+  user_conventionalx YEx.c0 = true /\ convx YEx.c = true.
 Proof. vm_compute. repeat split; reflexivity. Qed.
